@@ -54,7 +54,7 @@ def doc_shape(doc):
     return [(s['kind'], go(s['blocks'])) for s in doc['stories']]
 
 def comments_key(doc):
-    return sorted((c['id'], c['author'], c.get('date') or '', c['text'], c.get('parent')) for c in doc['comments'])
+    return sorted((c['id'], c['author'], c.get('date') or '', c['text'].strip(), c.get('parent')) for c in doc['comments'])
 
 def first_diff(a, b):
     ra, rb = repr(a), repr(b)
